@@ -145,7 +145,8 @@ Spec == Init /\ [][Next]_vars
 (***************************************************************************)
 AllCurrent == fresh => \A p \in Plots : files[p] = Current(tplVer, dataVer[p])
 Regenerated == fresh => \A p \in Plots : RegeneratedPdf(pre[p], wrote[p], launched[p]) /\ RegeneratedPng(pre[p], launched[p])
-ChangedOK == fresh => \A p \in Plots : ChangedFlag(chOut[p], wrote[p], launched[p]) /\ chOut[p] # "U"
+ChangedOK == fresh => \A p \in Plots : /\ ChangedFlag(chOut[p], wrote[p], launched[p])
+                                        /\ ChangedExact(chOut[p], wrote[p], launched[p]) /\ chOut[p] # "U"
 NoOverwrite == set.m1 # "overwrite" /\ set.m2 # "overwrite" /\ ~set.lo /\ ~set.po
 \* a run whose inputs are unchanged rewrites no file and launches no converter
 NoRedo == (fresh /\ runs >= 2 /\ rt = NoTouch /\ NoOverwrite) => \A p \in Plots : Nothing(wrote[p], launched[p])
